@@ -376,6 +376,7 @@ func (r *rewriter) post(c *astutil.Cursor) bool {
 			define(ch, n.Chan),
 			&ast.ExprStmt{X: call("PreSend", ch, r.site(n))},
 			&ast.SendStmt{Chan: ch, Value: n.Value},
+			&ast.ExprStmt{X: call("Post")},
 		}}
 		c.Replace(blk)
 		r.changed = true
@@ -629,12 +630,13 @@ func (r *rewriter) rewriteSelect(c *astutil.Cursor, n *ast.SelectStmt) {
 						body = append(body, &ast.AssignStmt{Lhs: []ast.Expr{ast.NewIdent("_")}, Tok: token.ASSIGN, Rhs: []ast.Expr{ast.NewIdent(id.Name)}})
 					}
 				}
+				body = append(body, &ast.ExprStmt{X: call("Post")})
 				clauses = append(clauses, &ast.CaseClause{List: []ast.Expr{&ast.BasicLit{Kind: token.INT, Value: strconv.Itoa(idx)}}, Body: append(body, cc.Body...)})
 				idx++
 				continue
 			}
 		}
-		clauses = append(clauses, &ast.CaseClause{List: []ast.Expr{&ast.BasicLit{Kind: token.INT, Value: strconv.Itoa(idx)}}, Body: append([]ast.Stmt{op}, cc.Body...)})
+		clauses = append(clauses, &ast.CaseClause{List: []ast.Expr{&ast.BasicLit{Kind: token.INT, Value: strconv.Itoa(idx)}}, Body: append([]ast.Stmt{op, &ast.ExprStmt{X: call("Post")}}, cc.Body...)})
 		idx++
 	}
 	hd := "false"
